@@ -24,7 +24,7 @@ def run(ctx):
     if not ok_h:
         return
     quick = ctx.tier == "quick"
-    results = engine.run_programs(ctx, 30 if quick else 300, 3 if quick else 8, VARIANTS, tag="c03")
+    results = engine.run_programs(ctx, 30 if quick else 150, 3 if quick else 6, VARIANTS, tag="c03")
     ctx.cov["programs"] = engine.status_counts(results)
     engine.describe_program_failures(ctx, results)
     ctx.cov["rule"] = ("as C01; per fact set 6 histories (2 permutations, 2 with intermediate closes at random positions, 1 with "
